@@ -72,6 +72,7 @@ type qresult struct {
 	qprobe
 	QClass int64  `json:"query_class"` // 0 ok, 1 error, 2 panic recovered by BaseApp.Query, 4 panic escaped on the request goroutine
 	Log    string `json:"log,omitempty"`
+	Ms     int64  `json:"elapsed_ms"` // wall clock of the probe: a probe with the default 5 s trace timeout that took seconds is no case
 }
 
 const jsTracerOK = `{data: [], fault: function(log) {}, step: function(log) { this.data.push(log.op.toString()) }, result: function() { return this.data; }}`
@@ -257,10 +258,14 @@ func (w *qworld) probes(seed uint64, n int) []qprobe {
 		{"msg-empty-payload", func(q *evmtypes.QueryTraceTxRequest) { q.Msg = &evmtypes.MsgEthereumTx{} }, func(q *evmtypes.QueryTraceBlockRequest) {
 			q.Txs = []*evmtypes.MsgEthereumTx{{}}
 		}},
-		{"predecessor-garbage", func(q *evmtypes.QueryTraceTxRequest) { q.Predecessors = []*evmtypes.MsgEthereumTx{garbage(rng.Fork(907))} }, func(q *evmtypes.QueryTraceBlockRequest) {
+		{"predecessor-garbage", func(q *evmtypes.QueryTraceTxRequest) {
+			q.Predecessors = []*evmtypes.MsgEthereumTx{garbage(rng.Fork(907))}
+		}, func(q *evmtypes.QueryTraceBlockRequest) {
 			q.Txs = []*evmtypes.MsgEthereumTx{garbage(rng.Fork(908)), q.Txs[0]}
 		}},
-		{"predecessor-repeated", func(q *evmtypes.QueryTraceTxRequest) { q.Predecessors = []*evmtypes.MsgEthereumTx{q.Msg, q.Msg, q.Predecessors[0]} }, func(q *evmtypes.QueryTraceBlockRequest) {
+		{"predecessor-repeated", func(q *evmtypes.QueryTraceTxRequest) {
+			q.Predecessors = []*evmtypes.MsgEthereumTx{q.Msg, q.Msg, q.Predecessors[0]}
+		}, func(q *evmtypes.QueryTraceBlockRequest) {
 			q.Txs = []*evmtypes.MsgEthereumTx{q.Txs[0], q.Txs[0], q.Txs[2], q.Txs[2]}
 		}},
 		{"many-txs", func(q *evmtypes.QueryTraceTxRequest) {
@@ -343,8 +348,10 @@ func TestChildQueryProbe(t *testing.T) {
 	require.NoError(t, err)
 	defer resF.Close()
 	progress := filepath.Join(dir, "queryprobe_progress.json")
-	run := func(p qprobe) qresult {
-		res := qresult{qprobe: p, QClass: 4}
+	run := func(p qprobe) (res qresult) {
+		res = qresult{qprobe: p, QClass: 4}
+		began := time.Now()
+		defer func() { res.Ms = time.Since(began).Milliseconds() }()
 		pan := CatchPanic(func() {
 			resp, err := w.c.App.BaseApp.Query(nil, &abci.RequestQuery{Path: p.path, Data: p.data, Height: p.height}) //nolint:staticcheck
 			if err != nil {
@@ -361,7 +368,10 @@ func TestChildQueryProbe(t *testing.T) {
 		}
 		return res
 	}
-	hangAfter := time.Duration(EnvInt("VERIF_QPROBE_HANG_S", 25)) * time.Second
+	// a handler that loops forever stays in the handler however long one waits: the deadline is generous (a loaded machine
+	// must never turn a slow answer into a verdict) and the verdict needs the request goroutine to be inside the handler
+	// in two dumps ten seconds apart after it
+	hangAfter := time.Duration(EnvInt("VERIF_QPROBE_HANG_S", 240)) * time.Second
 	for _, p := range ps {
 		pj, _ := json.Marshal(p)
 		require.NoError(t, os.WriteFile(progress, pj, 0o644))
@@ -372,6 +382,13 @@ func TestChildQueryProbe(t *testing.T) {
 		select {
 		case res = <-done:
 		case <-time.After(hangAfter):
+			select {
+			case res = <-done:
+			case <-time.After(10 * time.Second):
+			}
+			if res.Entry != "" || res.path != "" {
+				break // it did answer in the end
+			}
 			buf := make([]byte, 1<<16)
 			buf = buf[:runtime.Stack(buf, true)]
 			st := string(buf)
@@ -402,12 +419,13 @@ func TestChildQueryProbe(t *testing.T) {
 }
 
 type qprobeRun struct {
-	Results  []qresult
-	Died     bool
-	Hung     bool // a probe did not return within its deadline (the child then ends itself)
-	Last     *qprobe // the probe that was running (or had just returned) when the process died
-	Output   string
-	FinalCls int64
+	Results      []qresult
+	Died         bool
+	Hung         bool    // a probe did not return within its deadline (the child then ends itself)
+	Inconclusive bool    // the child ended early without a verdict (slow machine, harness failure): the probes not run are skipped
+	Last         *qprobe // the probe that was running (or had just returned) when the process died
+	Output       string
+	FinalCls     int64
 }
 
 func runQueryProbeChild(t *testing.T, dir string) qprobeRun {
@@ -415,7 +433,7 @@ func runQueryProbeChild(t *testing.T, dir string) qprobeRun {
 	require.NoError(t, err)
 	_ = os.Remove(filepath.Join(dir, "queryprobe_results.jsonl"))
 	_ = os.Remove(filepath.Join(dir, "queryprobe_progress.json"))
-	cmd := exec.Command(exe, "-test.run", "^TestChildQueryProbe$", "-test.count", "1", "-test.timeout", "600s")
+	cmd := exec.Command(exe, "-test.run", "^TestChildQueryProbe$", "-test.count", "1", "-test.timeout", "5000s")
 	cmd.Env = append(os.Environ(), "VERIF_BYTES_CHILD=queryprobe")
 	var buf bytes.Buffer
 	cmd.Stdout, cmd.Stderr = &buf, &buf
@@ -436,8 +454,14 @@ func runQueryProbeChild(t *testing.T, dir string) qprobeRun {
 	if i := strings.Index(out, "QUERYPROBE final_class="); i >= 0 {
 		_, _ = fmt.Sscanf(out[i:], "QUERYPROBE final_class=%d", &r.FinalCls)
 	}
-	r.Died = runErr != nil || !strings.Contains(out, "QUERYPROBE survived")
 	r.Hung = strings.Contains(out, "QUERYPROBE hung idx=")
+	ended := runErr != nil || !strings.Contains(out, "QUERYPROBE survived")
+	// a verdict only for a process that was killed by the code under test (panic in some goroutine, fatal error) or that
+	// reported a handler which never returned; a child that was merely slow / failed a harness assertion is no observation
+	byPanic := runErr != nil && !strings.Contains(out, "panic: test timed out") &&
+		(strings.Contains(out, "panic:") || strings.Contains(out, "fatal error:") || strings.Contains(out, "[signal "))
+	r.Died = ended && (r.Hung || byPanic)
+	r.Inconclusive = ended && !r.Died
 	if r.Died {
 		if pj, err := os.ReadFile(filepath.Join(dir, "queryprobe_progress.json")); err == nil {
 			var p qprobe
